@@ -105,6 +105,16 @@ def make_db(profile, id_size, kwlen, g, relation='disjoint', awkward=True):
     """database {keyword: [ids]} with the given list-length profile (dict order = profile order)"""
     kws = make_keywords(len(profile), kwlen, g)
     total = sum(profile)
+    if relation == 'aliased':
+        # keywords with equally long lists share ONE list object (db[w2] = db[w1]): a valid database - the two keywords occur in
+        # the same documents - whose lists a scheme must not treat as its own scratch space
+        ids = make_ids(max(profile) if profile else 0, id_size, g, awkward) if id_size > 1 or max(profile) <= 255 else []
+        by_len, db = {}, {}
+        for w, n in zip(kws, profile):
+            if n not in by_len:
+                by_len[n] = list(ids[:n])
+            db[w] = by_len[n]
+        return db
     if relation == 'mixed-ids':
         # identifiers of different lengths in one database (for a scheme without an identifier-size parameter): the lengths
         # straddle the 16-byte cipher block boundary, so ciphertext entries of one index have different lengths
